@@ -147,6 +147,10 @@ def unnamed_paths(real_report, model_answer):
                 named = [p for c, p in model_e if c == comp]
                 if named and all(named):
                     return f"result of {k[0]} on {k[1]}: the trace entry of `{comp}` has an empty resultPath (the failed path is {named[0]!r})"
+        # a component that no constraint of the failing branches has
+        foreign = sorted(set(c for c, _ in real_e) - set(c for c, _ in model_e))
+        if foreign and model_e:
+            return f"result of {k[0]} on {k[1]}: the trace names the component(s) {foreign[:2]}, but the constraints that can fail there are {sorted(set(c for c, _ in model_e))[:4]}"
         # the same components on both sides, but an entry names another path than the constraint's
         if sorted(c for c, _ in real_e) == sorted(c for c, _ in model_e):
             for comp in sorted(set(c for c, _ in real_e)):
